@@ -36,6 +36,9 @@ def cases(ctx, tier):
         if u > 0:
             nn = (u.bit_length() + 63) // 64
             out.append(('mpn_sqrtrem %x %s %d' % (nn, hx(u), rng.getrandbits(1)), tag + '-mpn'))
+            # the as-coded model (slow above a dozen limbs): all one- and two-limb operands, a sample of the longer ones
+            if nn <= 2 or (nn <= 12 and rng.random() < 0.15):
+                out.append(('mpn_sqrtrem_c %x %s %d' % (nn, hx(u), rng.getrandbits(1)), 'mpn_sqrtrem-as-coded'))
     for u in list(range(0, 70)):
         sq(u, 'sqrt-small')
     for n in range(1, 24 if quick else 60):
